@@ -326,7 +326,19 @@ pub fn run_check(args: &[String], replay: Option<Value>) -> i32 {
     let mut outs: Vec<(usize, usize, CaseOut)> = vec![];
     let stall = Duration::from_secs(20);
     let mut hangs = 0;
+    let mut n_viol = 0usize;
     while finished.iter().any(|f| !f) {
+        if n_viol >= 200 {
+            // a broken tree can make thousands of executions burn their whole budget: stop early
+            for c in children.iter_mut() {
+                if let Some(mut ch) = c.take() {
+                    let _ = ch.kill();
+                    let _ = ch.wait();
+                }
+            }
+            rep.caps.push("stopped after 200 violations; remaining executions not run".into());
+            break;
+        }
         match rx.recv_timeout(Duration::from_millis(500)) {
             Ok(Msg::Line(i, l)) => {
                 last_seen[i] = Instant::now();
@@ -339,7 +351,9 @@ pub fn run_check(args: &[String], replay: Option<Value>) -> i32 {
                     let b: usize = it.next().unwrap().parse().unwrap();
                     let e: usize = it.next().unwrap().parse().unwrap();
                     let v: Value = serde_json::from_str(it.next().unwrap()).expect("bad worker line");
-                    outs.push((b, e, CaseOut::from_json(&v)));
+                    let co = CaseOut::from_json(&v);
+                    n_viol += co.violations.len();
+                    outs.push((b, e, co));
                     in_flight[i] = None;
                 } else if l == "E" {
                     finished[i] = true;
